@@ -375,6 +375,8 @@ pub struct RoutingStats {
     pub planes_degenerate: u64,
     pub margins_zero_or_uncertain: u64,
     pub items_with_clean_tree: u64,
+    /// binary-quantised normals with as many +1 as -1 bits (their Manhattan "norm" is zero)
+    pub planes_balanced: u64,
 }
 
 /// Margin of `item` against `normal` in f64 with the certainty threshold of the f32 kernel.
@@ -441,6 +443,12 @@ pub fn routing(ix: &DIndex, metric: Metric) -> Result<(RoutingStats, BTreeSet<u3
                         stats.planes_degenerate += 1;
                         clean = false;
                         continue;
+                    }
+                    if metric.is_bq() {
+                        let ones: u32 = normal.iter().map(|b| b.count_ones()).sum();
+                        if ones as usize * 2 == normal.len() * 8 {
+                            stats.planes_balanced += 1;
+                        }
                     }
                     let (m, certain) = margin(metric, normal, &leaf.vector);
                     if !certain {
